@@ -319,6 +319,16 @@ redo:
 	return int(tok)
 }
 
+// isASCII reports whether s consists of ASCII characters only.
+func isASCII(s string) bool {
+	for i := 0; i < len(s); i++ {
+		if s[i] >= utf8.RuneSelf {
+			return false
+		}
+	}
+	return true
+}
+
 func lower(ch rune) rune     { return ('a' - 'A') | ch } // returns lower-case ch iff ch is ASCII letter
 func isDecimal(ch rune) bool { return '0' <= ch && ch <= '9' }
 func isHex(ch rune) bool     { return '0' <= ch && ch <= '9' || 'a' <= lower(ch) && lower(ch) <= 'f' }
@@ -1007,7 +1017,11 @@ func identToken(ident string) rune {
 		return FALSE_P
 	}
 
-	// Now try case-insensitive keywords.
+	// Now try case-insensitive keywords. They are ASCII; folding anything
+	// else would read U+0130 as i and the Kelvin sign U+212A as k.
+	if !isASCII(ident) {
+		return IDENT_P
+	}
 	switch strings.ToLower(ident) {
 	case "is":
 		return IS_P
